@@ -101,6 +101,46 @@ async def run_case(chk, rng, lines, impl):
     await a.finish()
 
 
+CHARSETS = {"latin1": (8, "latin-1", "caf\u00e9 \u00fc"), "utf8mb4": (255, "utf8", "\u043a\u043b\u044e\u0447 \u4e2d"), "cp1251": (51, "cp1251", "\u043a\u043b\u044e\u0447"),
+            "gbk": (28, "gbk", "\u4e2d\u6587")}
+
+
+async def charset_switch(chk, rng, count):
+    """the client character set in force when the attributes arrive is the one of the most recent switch (handshake collation,
+    then SET NAMES / SET character_set_client, i.e. the session variable), not the one of the handshake: names and string
+    values in that set reach the application exactly"""
+    for i in range(count):
+        first, second = rng.sample(sorted(CHARSETS), 2)
+        caps = BASE | C.CLIENT_QUERY_ATTRIBUTES
+        s = RawSession()
+        srv = mkserver([s])
+        a = Peer(srv)
+        await a.login(caps=caps, charset=CHARSETS[first][0])
+        # the effect of `SET NAMES <second>` (C14 / C15 check that statement itself): the session variable changes
+        s.variables.set("character_set_client", second)
+        _, codec, text = CHARSETS[second]
+        name, value = text, text[::-1]
+        attrs = [(253, False, value.encode(codec), name.encode(codec)), (3, False, 7, "n".encode(codec))]
+        kind = rng.choice(["query", "exec"])
+        before = len(s.log)
+        if kind == "query":
+            out = await a.cmd(com_query(b"select 1", caps=caps, attrs=attrs), n=30)
+        else:
+            o = await a.cmd(b"\x16select ? from t")
+            sid = struct.unpack_from("<I", o[0][1], 1)[0]
+            before = len(s.log)
+            out = await a.cmd(com_stmt_execute(sid, [(3, False, 1, b"")], caps=caps, attrs=attrs), n=30)
+        got = [l for l in s.log[before:] if l[0] == "hq"]
+        await a.finish()
+        desc = dict(handshake_charset=first, switched_to=second, command=kind, attribute_name=name, attribute_value=value)
+        chk.count("charset-switch:%s->%s" % (first, second))
+        chk.case(("switch", first, second, kind))
+        if len(got) != 1:
+            chk.fail("command with attributes in the switched character set did not reach the application", desc, dict(reply=[p[:60] for _, p in out][:1]))
+        elif got[0][2] != {name: value, "n": 7}:
+            chk.fail("attribute names / values were decoded with another character set than the one in force", desc, dict(received=str(got[0][2])[:200]))
+
+
 def main():
     chk = Check("C17", sys.argv[1:])
     chk.rule = ("COM_QUERY / COM_STMT_EXECUTE with 0,1,2,3,7,8,9,16,17 attributes (values over all supported binary types and NULL; "
@@ -114,6 +154,7 @@ def main():
     async def go():
         for k in range(500 if not chk.thorough else 60000):
             await run_case(chk, rng, lines, impl)
+        await charset_switch(chk, rng, 40 if not chk.thorough else 1500)
 
     asyncio.run(go())
     model = drive(lines)
